@@ -545,30 +545,58 @@ class Body:
 
     # ---- guards
     def edge_guards(self, bb):
-        """[(switch_bb, value_or_'else', discr_origin)] for every switch S that dominates bb and for which
-        exactly one outgoing edge of S can reach bb without passing through S again."""
+        """[(switch_bb, value_or_'else', discr_origin)] for every switch S that every feasible path from the entry to bb
+        passes, and of which exactly one outgoing edge can (feasibly) reach bb without passing S again.  Feasibility is the
+        path-sensitive one of reach_ps (a value built as Ok/Err/Some/None/true/false on a path decides later switches on it),
+        so guards survive `?` on a helper's result, `matches!`, and boolean temporaries."""
+        c = getattr(self, '_egc', None)
+        if c is None:
+            c = self._egc = {}
+        if bb in c:
+            return c[bb]
         out = []
-        dom = self.dominators()
-        if bb not in dom:
+        live = self.live_blocks()
+        if bb not in live:
+            c[bb] = out
             return out
-        for s in sorted(dom[bb]):
-            if s == bb:
+        sws = [s for s in sorted(live) if s != bb and self.term(s)['k'] == 'switch']
+        # cheap pre-filter: S must be able to reach bb at all
+        for s in sws:
+            if bb not in self.reachable(s):
+                continue
+            if bb in self._around(s):
                 continue
             t = self.term(s)
-            if t['k'] != 'switch':
-                continue
             succ_vals = defaultdict(list)
             for v, tb in t['arms']:
                 succ_vals[tb].append(v)
             succ_vals[t['else']].append('else')
             reaching = []
             for tb, vals in succ_vals.items():
-                if tb == bb or bb in self.reachable(tb, removed={s}):
+                if vals == ['else'] and self.else_infeasible(s):
+                    continue
+                if tb == bb or bb in self._from_edge(s, tb):
                     reaching.append((tb, vals))
             if len(reaching) == 1:
-                vals = reaching[0][1]
-                out.append((s, vals, self.origin(t['on'])))
+                out.append((s, reaching[0][1], self.origin(t['on'])))
+        c[bb] = out
         return out
+
+    def _around(self, s):
+        c = getattr(self, '_arc', None)
+        if c is None:
+            c = self._arc = {}
+        if s not in c:
+            c[s] = self.reach_ps(0, removed={s})
+        return c[s]
+
+    def _from_edge(self, s, tb):
+        c = getattr(self, '_fec', None)
+        if c is None:
+            c = self._fec = {}
+        if (s, tb) not in c:
+            c[(s, tb)] = self.reach_ps(tb, removed={s})
+        return c[(s, tb)]
 
     # ---- path-sensitive reachability (variant knowledge of locals that feed switches)
     def _ps_relevant(self):
